@@ -302,7 +302,7 @@ pub fn run(cfg: &J) -> J {
             }
         }
     };
-    for len in 0..=exl.min(3) {
+    for len in 0..=exl.min(2) {
         let mut idx = vec![0u16; len];
         loop {
             let t: Vec<u8> = idx.iter().map(|&b| b as u8).collect();
@@ -324,7 +324,42 @@ pub fn run(cfg: &J) -> J {
             }
         }
     }
-    if exl < 3 {
+    if exl >= 3 {
+        // all 2^24 three-byte inputs under the default and the Emacs Lisp option set, split over threads by first byte
+        // (the hooks' counters are thread-local)
+        let two: Vec<J> = opts[..2].to_vec();
+        let nthreads = 14usize;
+        let handles: Vec<_> = (0..nthreads).map(|ti| {
+            let two = two.clone();
+            std::thread::spawn(move || {
+                let mut bad: Vec<J> = Vec::new();
+                let mut raw: Vec<J> = Vec::new();
+                let mut n = 0u64;
+                for a in (ti..256).step_by(nthreads) {
+                    for b in 0..256usize {
+                        for c in 0..256usize {
+                            let t = [a as u8, b as u8, c as u8];
+                            n += 1;
+                            for ro in &two {
+                                for why in total_one(&t, ro, &mut raw, n % 49999 == 0) {
+                                    bad.push(json!({"rule":"totality","why":why,"text":bytes_j(&t),"ro":ro}));
+                                }
+                            }
+                        }
+                    }
+                }
+                (bad, raw, n)
+            })
+        }).collect();
+        for h in handles {
+            let (b, r, n) = h.join().expect("worker thread");
+            bad.extend(b);
+            raw.extend(r);
+            short += n;
+        }
+    }
+    {
+        // three-byte inputs over the byte-class alphabet under all eight option sets
         for &a in &classes {
             for &b in &classes {
                 for &c in &classes {
